@@ -14,7 +14,8 @@ var thoroughTier bool
 var alphas = map[string]alphaDef{
 	// general strings (first and further string parameters of the strings.* family)
 	"S": {sL("", "a", "ab", "X", " ", ",", "aXbXc", " pad ", "héllo wörld", "A,B,,C", "123", "-4.5e3", "a.b", "ǆx"),
-		sL("%d", "(a)(b)", "abab", "true", "c", "ö", "\xff", "Xc", "\t x\n", "ß")},
+		sL("%d", "(a)(b)", "abab", "true", "c", "ö", "\xff", "Xc", "\t x\n", "ß",
+			"AbC", "abcabc", "  ", "a b  c", "\u00a0x", "İ", "ſ", "s", "K", "k")},
 	// short strings for third/fourth string parameters
 	"SUB": {sL("", "a", "X", " ", ",", "ab", "ö"), sL("aX", "bX", "c")},
 	// pad strings
@@ -48,9 +49,10 @@ var alphas = map[string]alphaDef{
 	"QS": {sL(`"abc"`, `'c'`, "`raw`", `"a\nb"`, `abc`, `"`, `""`, `'ab'`, `"é"`, ""),
 		sL(`"\xff"`, `'\''`, "`a\nb`", `"a`, `"\q"`)},
 	"F": {fL(0, 1, -1, 0.5, 2.5, -2.5, math.NaN(), math.Inf(1), 1e10),
-		fL(math.Copysign(0, -1), math.Inf(-1), 1e-10, 3, 100, 1.5, math.MaxFloat64, math.SmallestNonzeroFloat64, math.Pi, -1e10, 0.1)},
-	// int parameters of math functions
-	"MINT": {iL(0, 1, -1, 2, 3, 10, 64, -5), iL(308, 309, -324, 1023, 1024, -1075, math.MaxInt64)},
+		fL(math.Copysign(0, -1), math.Inf(-1), 1e-10, 3, 100, 1.5, math.MaxFloat64, math.SmallestNonzeroFloat64, math.Pi, -1e10, 0.1,
+			1e308, -0.5, 0.9999999999999999, 1<<53, 171.5, 720, 1e-320)},
+	// int parameters of math functions (no huge values: math.Jn/Yn iterate n times)
+	"MINT": {iL(0, 1, -1, 2, 3, 10, 64, -5), iL(308, 309, -324, 1023, 1024, -1075, 5)},
 	"B":    {pre("b:", "true", "false"), nil},
 	"Y":    {yL("", "a", "ab\xff", "\xfb\xff\xfe", "hello"), yL("\x00", "hello!", "héllo wörld")},
 	"B64": {sL("", "YQ==", "YQ", "YWL_", "YWL/", "+/+/", "-_-_", "!!!", "YQ=", "aGVsbG8=", "aGVsbG8", "YWI="),
@@ -73,14 +75,15 @@ var alphas = map[string]alphaDef{
 		"Tue Nov 10 23:00:00 2009", "2009-13-10"),
 		sL("2009-11-10T23:00:00.123456789-05:00", "11:59AM", "2012-02-29", "2011-02-29")},
 	// components of times.date
+	// (time.LoadLocation costs ~0.15 ms under 16-way parallelism: the product is kept around 5*10^5)
 	"YEAR":  {iL(2009, 1, 0, 1970, -1), iL(2012, 10000)},
 	"DMON":  {iL(11, 1, 0, 12, 13), iL(2, -1)},
 	"DDAY":  {iL(10, 1, 0, 31, -1), iL(29, 32)},
-	"DHOUR": {iL(23, 0, 25), iL(-1, 12)},
+	"DHOUR": {iL(23, 0, 25), iL(-1)},
 	"DMIN":  {iL(0, 59, -1), iL(60)},
 	"DSEC":  {iL(0, 59, 61), iL(-1)},
-	"DNSEC": {iL(0, 1, 999999999), iL(1000000000, -1)},
-	"DLOC":  {sL("UTC", "Asia/Tokyo", "Nope/Zone", ""), sL("Local", "America/New_York")},
+	"DNSEC": {iL(0, 1, 999999999), iL(1000000000)},
+	"DLOC":  {sL("UTC", "Asia/Tokyo", "Nope/Zone", ""), sL("Local")},
 	"USEC":  {iL(0, 1, -1, 1257894000, 1<<40), iL(-62135596800, 253402300800)},
 	"UNSEC": {iL(0, 1, -1, 999999999, 1000000001), iL(math.MaxInt64, math.MinInt64)},
 	// add_date components
